@@ -32,15 +32,38 @@ pub struct N {
 pub struct Spec {
     pub nodes: Vec<N>,
     pub root: usize,
+    /// lookup types (parallel to `nodes`; empty = untyped spec): `(is_gpos, lookup type)`
+    pub types: Vec<Option<(bool, u16)>>,
 }
 
 impl Spec {
+    fn is_typed(&self) -> bool {
+        self.types.iter().any(|t| t.is_some())
+    }
+
+    fn type_of(&self, i: usize) -> Option<(bool, u16)> {
+        self.types.get(i).copied().flatten()
+    }
+
+    /// the bytes of node `i`: the fill byte, and for a lookup its lookup type in the first two bytes
+    fn node_bytes(&self, i: usize) -> Vec<u8> {
+        let n = &self.nodes[i];
+        let mut b = vec![n.fill; n.size];
+        if let Some((_, t)) = self.type_of(i) {
+            if b.len() >= 2 {
+                b[0] = (t >> 8) as u8;
+                b[1] = t as u8;
+            }
+        }
+        b
+    }
+
     fn node_specs(&self, burn: &[u32]) -> Vec<NodeSpec> {
         self.nodes
             .iter()
             .enumerate()
             .map(|(i, n)| NodeSpec {
-                bytes: vec![n.fill; n.size],
+                bytes: self.node_bytes(i),
                 links: n
                     .links
                     .iter()
@@ -55,8 +78,11 @@ impl Spec {
     fn render(&self, ids: &[u64], fresh: &str, with_bytes: bool) -> String {
         let mut s = format!("R {} F {}", ids[self.root], fresh);
         for (i, n) in self.nodes.iter().enumerate() {
-            let bytes = if with_bytes && n.size > 0 { rle(&vec![n.fill; n.size]) } else { "-".to_string() };
+            let bytes = if with_bytes && n.size > 0 { rle(&self.node_bytes(i)) } else { "-".to_string() };
             s.push_str(&format!(" N {} {} {}", ids[i], n.size, bytes));
+            if let Some((gpos, t)) = self.type_of(i) {
+                s.push_str(&format!(" T {}{}", if gpos { 'p' } else { 's' }, t));
+            }
             for l in &n.links {
                 s.push_str(&format!(" L {} {} {} {}", l.pos, l.width, ids[l.target], l.adj));
             }
@@ -138,7 +164,26 @@ fn dash(v: Vec<String>, sep: &str) -> String {
 }
 
 /// state rendering identical to Drv/C05.lean `showState`, ids mapped through `m`
+/// `GPOS5MarkToLig` -> `p5`, `GSUB7Extension` -> `s7`
+fn type_token(name: &str) -> Option<String> {
+    let (k, rest) = if let Some(r) = name.strip_prefix("GPOS") {
+        ('p', r)
+    } else if let Some(r) = name.strip_prefix("GSUB") {
+        ('s', r)
+    } else {
+        return None;
+    };
+    let digits: String = rest.chars().take_while(|c| c.is_ascii_digit()).collect();
+    if digits.is_empty() { None } else { Some(format!("{k}{digits}")) }
+}
+
 fn show_state(g: &VGraph, m: &dyn Fn(u64) -> u64) -> String {
+    show_state_typed(g, m, &[])
+}
+
+/// `typed_ids`: the (raw) ids whose lookup type is reported (the objects of the request; copies made
+/// by `duplicate_subgraph` inherit a type that plays no role any more)
+fn show_state_typed(g: &VGraph, m: &dyn Fn(u64) -> u64, typed_ids: &[u64]) -> String {
     let mut s = format!(
         "order={} ns={} roots={}",
         dash(g.order().iter().map(|i| m(*i).to_string()).collect(), ","),
@@ -168,6 +213,17 @@ fn show_state(g: &VGraph, m: &dyn Fn(u64) -> u64) -> String {
         s.push(' ');
         s.push_str(&o);
     }
+    let mut types: Vec<(u64, String)> = g
+        .objects()
+        .iter()
+        .filter(|o| typed_ids.contains(&o.id))
+        .filter_map(|o| type_token(&o.type_name).map(|t| (m(o.id), t)))
+        .collect();
+    types.sort();
+    if !types.is_empty() {
+        s.push_str(" types=");
+        s.push_str(&types.iter().map(|(i, t)| format!("{i}:{t}")).collect::<Vec<_>>().join(","));
+    }
     s
 }
 
@@ -189,7 +245,7 @@ pub struct Ran {
 /// (spec index, then new ids ascending from n); otherwise raw counter values are reported.
 pub fn run_ops(spec: &Spec, ops: &[&str], burn: &[u32], normalise: bool) -> Ran {
     let specs = spec.node_specs(burn);
-    let mut g = VGraph::new(&specs, spec.root);
+    let mut g = if spec.is_typed() { VGraph::new_typed(&specs, &spec.types, spec.root) } else { VGraph::new(&specs, spec.root) };
     let raw_ids = g.ids().to_vec();
     let root = g.root();
     let mut bytes = None;
@@ -238,6 +294,35 @@ pub fn run_ops(spec: &Spec, ops: &[&str], burn: &[u32], normalise: bool) -> Ran 
                         bytes = Some(b);
                     }
                 },
+                "sel" => toks.push(match g.select_promotions() {
+                    None => "sel=none".into(),
+                    Some((parent, can, sel)) => format!(
+                        "sel={}:{}:{}",
+                        IdTag(parent),
+                        dash(can.iter().map(|i| IdTag(*i).to_string()).collect(), "."),
+                        dash(sel.iter().map(|i| IdTag(*i).to_string()).collect(), ".")
+                    ),
+                }),
+                "promote" => {
+                    g.try_promoting_subtables();
+                    toks.push("ok".into())
+                }
+                "packt" => {
+                    let ok = g.pack_objects();
+                    pack_ok = Some(ok);
+                    toks.push(tf(ok))
+                }
+                "dumpt" => match g.dump() {
+                    None => {
+                        pack_ok = Some(false);
+                        toks.push("fail".into())
+                    }
+                    Some(b) => {
+                        pack_ok = Some(true);
+                        toks.push(rle(&b));
+                        bytes = Some(b);
+                    }
+                },
                 other => panic!("unknown op {other}"),
             }
         }
@@ -273,7 +358,8 @@ pub fn run_ops(spec: &Spec, ops: &[&str], burn: &[u32], normalise: bool) -> Ran 
         },
         Ok(toks) => {
             let toks: Vec<String> = toks.into_iter().map(|t| untag_ids(&t, &m)).collect();
-            let resp = format!("{} | {}", toks.join(" "), show_state(&g, &m));
+            let typed_ids: Vec<u64> = raw_ids.iter().enumerate().filter(|(i, _)| spec.type_of(*i).is_some()).map(|(_, id)| *id).collect();
+            let resp = format!("{} | {}", toks.join(" "), show_state_typed(&g, &m, &typed_ids));
             Ran {
                 panic_msg: String::new(),
                 resp,
@@ -381,7 +467,7 @@ fn spec_objmap(spec: &Spec) -> ObjMap {
         .map(|(i, n)| {
             (
                 i as u64,
-                (vec![n.fill; n.size], n.links.iter().map(|l| (l.pos, l.width, l.target as u64, l.adj)).collect()),
+                (spec.node_bytes(i), n.links.iter().map(|l| (l.pos, l.width, l.target as u64, l.adj)).collect()),
             )
         })
         .collect()
@@ -537,6 +623,272 @@ pub fn check_spec(s: &mut Session, group: &'static str, spec: &Spec, full: bool)
 }
 
 // ---------------------------------------------------------------------------------------------
+// typed graphs: extension promotion
+
+/// Walk the output against the *input* objects, seeing lookups through extension indirection: a
+/// lookup of (input) lookup type `t` is either unchanged, or starts with the extension lookup type of
+/// its table (GPOS 9 / GSUB 7) and every one of its offsets leads to an 8-byte extension subtable
+/// `{format 1, extensionLookupType t, Offset32}` whose 32-bit offset (relative to the extension
+/// subtable) leads to a byte-for-byte copy of the original subtable.  Returns the set of input objects
+/// reached and the number of promoted lookups met.
+pub fn walk_promo(out: &[u8], objs: &ObjMap, types: &HashMap<u64, (bool, u16)>, root: u64) -> Result<(BTreeSet<u64>, usize), String> {
+    let mut seen: HashSet<(u64, usize)> = HashSet::new();
+    let mut ids = BTreeSet::new();
+    let mut promoted_ids = BTreeSet::new();
+    let mut stack = vec![(root, 0usize)];
+    while let Some((id, pos)) = stack.pop() {
+        if !seen.insert((id, pos)) {
+            continue;
+        }
+        ids.insert(id);
+        let (bytes, links) = objs.get(&id).ok_or_else(|| format!("unknown object {id}"))?;
+        if pos + bytes.len() > out.len() {
+            return Err(format!("object {id} at {pos} (len {}) runs past the output ({})", bytes.len(), out.len()));
+        }
+        let mut promoted = None;
+        if let Some((gpos, t)) = types.get(&id) {
+            if bytes.len() < 2 {
+                return Err(format!("lookup {id} shorter than its type field"));
+            }
+            let head = u16::from_be_bytes([out[pos], out[pos + 1]]);
+            let ext = if *gpos { 9 } else { 7 };
+            if head == *t {
+            } else if head == ext {
+                promoted = Some(*t);
+                promoted_ids.insert(id);
+            } else {
+                return Err(format!("lookup {id} at {pos}: lookup type field is {head}, expected {t} or the extension type {ext}"));
+            }
+        }
+        let mut mask = vec![false; bytes.len()];
+        for (lp, w, _, _) in links {
+            for k in 0..*w as usize {
+                if let Some(mk) = mask.get_mut(*lp as usize + k) {
+                    *mk = true;
+                }
+            }
+        }
+        for (k, b) in bytes.iter().enumerate() {
+            if promoted.is_some() && k < 2 {
+                continue;
+            }
+            if !mask[k] && out[pos + k] != *b {
+                return Err(format!("object {id} at {pos}: byte {k} is {:02x}, expected {:02x}", out[pos + k], b));
+            }
+        }
+        for (lp, w, target, adj) in links {
+            let at = pos + *lp as usize;
+            if at + *w as usize > out.len() {
+                return Err(format!("object {id} at {pos}: link field at {at} outside the output"));
+            }
+            let mut v: usize = 0;
+            for k in 0..*w as usize {
+                v = (v << 8) | out[at + k] as usize;
+            }
+            let tpos = pos + *adj as usize + v;
+            match promoted {
+                None => stack.push((*target, tpos)),
+                Some(t) => {
+                    if tpos + 8 > out.len() {
+                        return Err(format!("lookup {id}: extension subtable at {tpos} runs past the output"));
+                    }
+                    let e = &out[tpos..tpos + 8];
+                    if e[0] != 0 || e[1] != 1 || u16::from_be_bytes([e[2], e[3]]) != t {
+                        return Err(format!("lookup {id}: extension subtable at {tpos} is {:02x?}, expected format 1 type {t}", &e[..4]));
+                    }
+                    let off = u32::from_be_bytes([e[4], e[5], e[6], e[7]]) as usize;
+                    stack.push((*target, tpos + off));
+                }
+            }
+        }
+    }
+    Ok((ids, promoted_ids.len()))
+}
+
+fn spec_types(spec: &Spec) -> HashMap<u64, (bool, u16)> {
+    (0..spec.nodes.len()).filter_map(|i| spec.type_of(i).map(|t| (i as u64, t))).collect()
+}
+
+fn is_promotable(t: (bool, u16)) -> bool {
+    if t.0 { t.1 != 9 } else { t.1 != 7 }
+}
+
+/// what `get_promotable_subtables` insists on: all promotable lookups hang off one and the same parent
+fn promo_wellformed(spec: &Spec) -> bool {
+    let mut parents = BTreeSet::new();
+    let mut any = false;
+    for i in 0..spec.nodes.len() {
+        if spec.type_of(i).map(is_promotable).unwrap_or(false) {
+            any = true;
+            for (p, nd) in spec.nodes.iter().enumerate() {
+                if nd.links.iter().any(|l| l.target == i) {
+                    parents.insert(p);
+                }
+            }
+        }
+    }
+    !any || parents.len() == 1
+}
+
+const OPS_T1: &[&str] = &["dumpt"];
+const OPS_T2: &[&str] = &["basic", "sel", "promote", "short", "gate", "ovf"];
+const OPS_T3: &[&str] = &["basic", "promote", "assign", "short", "gate", "ovf", "iso", "short", "gate"];
+const OPS_T4: &[&str] = &["packt", "ser"];
+
+pub fn check_typed(s: &mut Session, group: &'static str, spec: &Spec, full: bool) {
+    let n = spec.nodes.len();
+    let ids = norm_ids(n);
+    let wellformed = promo_wellformed(spec);
+    let ran = run_ops(spec, OPS_T1, &[], true);
+    s.case(group, format!("g.ops dumpt {}", spec.render(&ids, &fresh_for(&ran, n), true)), ran.resp.clone());
+    s.count(&format!(
+        "dumpt:{}",
+        if ran.trapped { "trap" } else if ran.pack_ok == Some(true) { "ok" } else { "fail" }
+    ));
+    let input = || format!("g.ops dumpt {}", spec.render(&ids, "-", false));
+    if ran.trapped {
+        let site = if ran.panic_msg.contains("multiple parents") {
+            "multiple-parents"
+        } else if ran.panic_msg.contains("left == right") && ran.panic_msg.contains("Space(") {
+            "try_isolating_subgraphs-space-assert"
+        } else if ran.panic_msg.contains("cycle or something?") {
+            "cycle-or-something"
+        } else {
+            "other"
+        };
+        s.count(&format!("dumpt:trap:{site}"));
+        if wellformed {
+            s.oracle(&format!("packt-no-panic({site})"), false, input, || format!("pack_objects panicked on a well-formed typed graph: {}", ran.panic_msg));
+        }
+    }
+    if let Some(out) = &ran.bytes {
+        let w = walk_promo(out, &spec_objmap(spec), &spec_types(spec), spec.root as u64);
+        let want = reachable(spec);
+        let ok = matches!(&w, Ok((seen, _)) if *seen == want);
+        s.oracle("walk-input-through-extensions", ok, input, || match &w {
+            Ok((seen, _)) => format!("reached {seen:?}, reachable {want:?}"),
+            Err(e) => e.clone(),
+        });
+        if let Ok((_, promoted)) = &w {
+            s.count(if *promoted > 0 { "dumpt:ok:with-promoted-lookups" } else { "dumpt:ok:nothing-promoted" });
+        }
+        let wf = walk(out, &objview_map(&ran.final_objs), ran.root);
+        let order_set: BTreeSet<u64> = ran.final_order.iter().copied().collect();
+        let okf = matches!(&wf, Ok((seen, copies, covered)) if *seen == order_set && *copies == ran.final_order.len() && *covered == out.len());
+        s.oracle("walk-final-graph", okf, input, || match &wf {
+            Ok((seen, copies, covered)) => format!("reached {} objects / order has {}; {copies} copies; covered {covered} of {} bytes", seen.len(), ran.final_order.len(), out.len()),
+            Err(e) => e.clone(),
+        });
+    } else if !ran.trapped {
+        s.oracle("fail-no-bytes", ran.pack_ok == Some(false) && ran.bytes.is_none(), input, || String::new());
+    }
+    if !full {
+        return;
+    }
+    for (ops, name) in [
+        (OPS_T2, "basic,sel,promote,short,gate,ovf"),
+        (OPS_T3, "basic,promote,assign,short,gate,ovf,iso,short,gate"),
+        (OPS_T4, "packt,ser"),
+    ] {
+        let with_bytes = ops.contains(&"ser");
+        if with_bytes && ran.pack_ok != Some(true) && (n > 16 || spec.total_size() > 400_000) {
+            s.count("skipped:packt,ser-on-big-failed-pack");
+            continue;
+        }
+        let r = run_ops(spec, ops, &[], true);
+        s.case(group, format!("g.ops {} {}", name, spec.render(&ids, &fresh_for(&r, n), with_bytes)), r.resp.clone());
+        if r.trapped {
+            s.count(&format!("typed-trap:{}", ops[0]));
+        } else if ops.contains(&"sel") {
+            s.count(if r.resp.contains("sel=none") { "sel:none" } else if r.resp.split(' ').any(|t| t.starts_with("sel=") && t.ends_with(":-")) { "sel:empty" } else { "sel:some" });
+        }
+    }
+}
+
+/// GPOS/GSUB shaped graphs: header → lookup list → typed lookups → subtables → big shared leaves
+fn lookup_family(rng: &mut Rng) -> Spec {
+    let gpos = rng.chance(1, 2);
+    let plain: &[u16] = if gpos { &[1, 3, 5, 6, 7, 8] } else { &[1, 2, 3, 4, 5, 6, 8] };
+    let ext: u16 = if gpos { 9 } else { 7 };
+    let n_lookups = 1 + rng.below(6) as usize;
+    let n_leaves = 1 + rng.below(5) as usize;
+    let mut nodes = vec![
+        N { size: 10, fill: 0x01, links: vec![L { pos: 8, width: 2, target: 1, adj: 0 }] },
+        N { size: 0, fill: 0x02, links: vec![] },
+    ];
+    let mut types: Vec<Option<(bool, u16)>> = vec![None, None];
+    let big = *rng.pick(&[0usize, 1, 2, 3]);
+    let leaf_sizes: Vec<usize> = (0..n_leaves)
+        .map(|_| match big {
+            0 => *rng.pick(&[20usize, 100, 1000]),
+            1 => *rng.pick(&[1000usize, 20000, 30000]),
+            2 => *rng.pick(&[20000usize, 30000, 40000, 65000]),
+            _ => *rng.pick(&[10usize, 65000, 66000]),
+        })
+        .collect();
+    // leaves are appended last; remember the links to patch
+    let mut leaf_links: Vec<(usize, usize, usize)> = vec![]; // (node, link index, leaf)
+    for _ in 0..n_lookups {
+        let lookup = nodes.len();
+        nodes[1].links.push(L { pos: 0, width: 2, target: lookup, adj: 0 });
+        let is_ext = rng.chance(1, 6);
+        let t = if is_ext { ext } else { *rng.pick(plain) };
+        nodes.push(N { size: 0, fill: 0x10 + (lookup % 64) as u8, links: vec![] });
+        types.push(Some((gpos, t)));
+        let n_sub = rng.below(4) as usize + if rng.chance(1, 10) { 0 } else { 1 };
+        for _ in 0..n_sub {
+            let mut sub = nodes.len();
+            if is_ext {
+                // an extension subtable already in the input
+                nodes[lookup].links.push(L { pos: 0, width: 2, target: sub, adj: 0 });
+                nodes.push(N { size: 8, fill: 0, links: vec![L { pos: 4, width: 4, target: sub + 1, adj: 0 }] });
+                types.push(None);
+                sub += 1;
+            } else {
+                nodes[lookup].links.push(L { pos: 0, width: 2, target: sub, adj: 0 });
+            }
+            nodes.push(N { size: 0, fill: 0x50 + (sub % 64) as u8, links: vec![] });
+            types.push(None);
+            let k = 1 + rng.below(3) as usize;
+            for j in 0..k {
+                let leaf = rng.below(n_leaves as u64) as usize;
+                nodes[sub].links.push(L { pos: 0, width: if rng.chance(1, 10) { 3 } else { 2 }, target: usize::MAX, adj: 0 });
+                leaf_links.push((sub, j, leaf));
+            }
+        }
+    }
+    let leaf_base = nodes.len();
+    let mut used = vec![false; n_leaves];
+    for (node, li, leaf) in &leaf_links {
+        nodes[*node].links[*li].target = leaf_base + *leaf;
+        used[*leaf] = true;
+    }
+    for (lf, size) in leaf_sizes.iter().enumerate() {
+        nodes.push(N { size: *size, fill: 0x90 + lf as u8, links: vec![] });
+        types.push(None);
+        if !used[lf] {
+            // keep every object reachable
+            nodes[0].links.push(L { pos: 0, width: 2, target: leaf_base + lf, adj: 0 });
+        }
+    }
+    // malformed variants: a second parent for a lookup / a promotable root
+    if rng.chance(1, 14) && n_lookups > 0 {
+        nodes[0].links.push(L { pos: 0, width: 2, target: 2, adj: 0 });
+    }
+    if rng.chance(1, 25) {
+        types[0] = Some((gpos, *rng.pick(plain)));
+    }
+    for (i, nd) in nodes.iter_mut().enumerate() {
+        let header: u32 = if types[i].is_some() { 6 } else if i == 0 { 0 } else if nd.size == 8 && nd.links.len() == 1 && nd.links[0].width == 4 { 4 } else { 2 * rng.below(4) as u32 };
+        let need = place_links(&mut nd.links, header) as usize;
+        if nd.size < need {
+            nd.size = need + if types[i].is_some() || nd.size == 8 { 0 } else { rng.below(30) as usize };
+        }
+    }
+    Spec { nodes, root: 0, types }
+}
+
+// ---------------------------------------------------------------------------------------------
 // generators
 
 const SIZES: [usize; 6] = [0, 2, 0x7FFE, 0xFFFC, 0xFFFE, 0x10002];
@@ -570,7 +922,7 @@ fn small_shape(n: usize, edges: &[u8], sizes: &[usize]) -> Option<Spec> {
             return None;
         }
     }
-    let spec = Spec { nodes, root: 0 };
+    let spec = Spec { nodes, root: 0, types: vec![] };
     if reachable(&spec).len() != n {
         return None;
     }
@@ -675,7 +1027,7 @@ fn random_dag(rng: &mut Rng, max_nodes: usize) -> Spec {
             }
         }
     }
-    let mut spec = Spec { nodes, root: 0 };
+    let mut spec = Spec { nodes, root: 0, types: vec![] };
     // keep find_space_roots_hb's path-exponential walk bounded
     while narrow_path_count(&spec) > 20_000 {
         // drop the last extra narrow edge of the node with most links
@@ -754,7 +1106,7 @@ fn space_family(rng: &mut Rng) -> Spec {
             nd.size = need + rng.below(12) as usize;
         }
     }
-    Spec { nodes, root: 0 }
+    Spec { nodes, root: 0, types: vec![] }
 }
 
 // ---------------------------------------------------------------------------------------------
@@ -862,11 +1214,12 @@ mod real {
         let r = catch(|| {
             let mut g = VGraph::from_table(table);
             let before = g.object_count();
+            let input_objs = g.objects();
             let ok = g.pack_objects();
             let bytes = if ok { Some(g.serialize()) } else { None };
-            (before, ok, bytes, g.objects(), g.order(), g.root())
+            (before, ok, bytes, g.objects(), g.order(), g.root(), input_objs)
         });
-        let Ok((before, ok, bytes, objs, order, root)) = r else {
+        let Ok((before, ok, bytes, objs, order, root, input_objs)) = r else {
             s.oracle("real:hook-no-panic", false, input, || "panic under the hook".into());
             return None;
         };
@@ -885,6 +1238,27 @@ mod real {
                 Ok((seen, copies, covered)) => format!("reached {} / {} objects, {copies} copies, covered {covered}/{}", seen.len(), order.len(), out.len()),
                 Err(e) => e.clone(),
             });
+            // the output read against the INPUT objects, lookups seen through extension indirection
+            // (only when no subtable splitting can have happened: no GPOS PairPos / MarkToBase lookups)
+            let in_types: HashMap<u64, (bool, u16)> = input_objs
+                .iter()
+                .filter_map(|o| {
+                    type_token(&o.type_name).map(|t| (o.id, (t.starts_with('p'), t[1..].parse::<u16>().unwrap())))
+                })
+                .collect();
+            let splittable = in_types.values().any(|t| t.0 && (t.1 == 2 || t.1 == 4));
+            if !splittable {
+                let w = walk_promo(out, &objview_map(&input_objs), &in_types, root);
+                let all: BTreeSet<u64> = input_objs.iter().map(|o| o.id).collect();
+                let okw = matches!(&w, Ok((seen, _)) if *seen == all);
+                s.oracle("real:walk-input-through-extensions", okw, input, || match &w {
+                    Ok((seen, _)) => format!("reached {} of {} input objects", seen.len(), all.len()),
+                    Err(e) => e.clone(),
+                });
+                if let Ok((_, promoted)) = &w {
+                    s.count(&format!("real:input-walk:{}", if *promoted > 0 { "promoted-lookups" } else { "no-promotion" }));
+                }
+            }
             // adjustment never exceeds the parent's size on real tables (hypothesis of serialize_sound)
             let adj_ok = objs.iter().all(|o| o.links.iter().all(|l| l.3 as usize <= o.bytes.len() && (l.0 + l.1 as u32) as usize <= o.bytes.len()));
             s.oracle("real:adjustment<=parent-size", adj_ok, input, || String::new());
@@ -1069,6 +1443,7 @@ fn run(cfg: &Config, s: &mut Session) {
                             N { size: 3 + extra, fill: 0x22, links: vec![] },
                         ],
                         root: 0,
+                        types: vec![],
                     };
                     check_spec(s, "adjustment-boundary", &spec, true);
                     // the layout root, child serialized without asking the gate
@@ -1096,6 +1471,36 @@ fn run(cfg: &Config, s: &mut Session) {
         }
     }
 
+    // 5c. typed graphs: extension promotion
+    let n_typed = if !on("typed") { 0 } else if cfg.thorough() { 12_000 } else { 900 };
+    for i in 0..n_typed {
+        let spec = lookup_family(&mut rng);
+        check_typed(s, "lookup-family", &spec, i % 2 == 0);
+    }
+    // random DAGs with a few nodes typed as lookups (mostly the multiple-parents panic)
+    for _ in 0..(if !on("typed") { 0 } else if cfg.thorough() { 2_000 } else { 250 }) {
+        let mut spec = random_dag(&mut rng, 12);
+        let n = spec.nodes.len();
+        spec.types = vec![None; n];
+        let gpos = rng.chance(1, 2);
+        for _ in 0..1 + rng.below(3) {
+            let i = rng.below(n as u64) as usize;
+            if spec.nodes[i].size >= 2 && spec.nodes[i].links.iter().all(|l| l.pos >= 2) {
+                spec.types[i] = Some((gpos, if gpos { *rng.pick(&[1u16, 3, 5, 9]) } else { *rng.pick(&[1u16, 4, 7, 8]) }));
+            }
+        }
+        check_typed(s, "typed-dag", &spec, true);
+    }
+    // the f64 sort key of select_promotions_hb: `((count as f64 / size as f64) * 1e9) as u64`
+    if on("typed") {
+        for i in 0..(if cfg.thorough() { 200_000 } else { 10_000 }) {
+            let count = match i % 4 { 0 => rng.below(8), 1 => rng.below(200), _ => rng.below(70_000) } as usize;
+            let size = match rng.below(5) { 0 => rng.below(16), 1 => rng.below(70_000), 2 => rng.below(1 << 24), 3 => rng.below(1 << 33), _ => 1 + rng.below(3_000_000) } as usize;
+            let key = ((count as f64 / size as f64) * 1e9) as u64;
+            s.case("promo-key(rust-f64)", format!("g.key {count} {size}"), key.to_string());
+        }
+    }
+
     // 6. real tables that force splitting / promotion
     if on("real") {
         real::run(s, cfg.thorough());
@@ -1111,7 +1516,7 @@ fn mk(sizes: &[usize], links: &[(usize, usize, u8)]) -> Spec {
         let need = place_links(&mut nd.links, 0) as usize;
         nd.size = nd.size.max(need);
     }
-    Spec { nodes, root: 0 }
+    Spec { nodes, root: 0, types: vec![] }
 }
 
 fn fixed_specs() -> Vec<Spec> {
